@@ -434,6 +434,7 @@ class Act:
         self.inputs_after = None
         self.globals_changed = []
         self._jac_buf = None
+        self._fun_buf = None
         self._fault_idx = {}
         for f in self.faults:
             if f["kind"] in ("raise", "nest", "scribble_arg"):
@@ -496,6 +497,13 @@ class Act:
         if self._scribble_all or (fl and any(f["kind"] == "scribble_arg" for f in fl)):
             self.fired["scribble_arg"] += 1
             x[:] = np.nan
+        if self.cfg.get("env_fun_buffer"):
+            # the objective writes its value into one preallocated 1-element array and returns it
+            if self._fun_buf is None:
+                self._fun_buf = np.empty(1)
+            self._fun_buf[0] = v
+            self.fired["fun_buffer"] += 1
+            return self._fun_buf
         return v
 
     def _jac(self, x, *args):
